@@ -16,6 +16,7 @@ package c19
 // state only from the target's own domain.
 
 import (
+	"bytes"
 	"crypto/tls"
 	"fmt"
 	"net/http"
@@ -53,6 +54,10 @@ type opaqueRec struct {
 	host      string
 	minted    time.Time
 	srv       int
+	// bound: minted in answer to a client-initiated request (the response carries the server's
+	// signature), so the server may know the client's key from its own state. Otherwise the key
+	// can only come from the request that answers the challenge.
+	bound bool
 }
 
 type tokenRec struct {
@@ -119,6 +124,9 @@ type world struct {
 	accepted   int
 	rejected   int
 	cryptoOnly int
+	// alteredAccepted counts accepted requests that contained a parameter with altered quoting
+	// next to a complete intact proof.
+	alteredAccepted int
 }
 
 type srvConf struct {
@@ -127,6 +135,9 @@ type srvConf struct {
 	tls     bool
 	secret  secretMode
 	ident   int // identity slot: instances with the same keyType and slot share one private key
+	// hmac is the HmacKey the application provides (modes secretOwn / secretShared), see
+	// secrets_test.go; nil selects the classic 32-byte keys ownSecret(i) / sharedSecret().
+	hmac []byte
 }
 
 // twoServers is the classic deployment: two unrelated instances.
@@ -153,8 +164,6 @@ func sharedSecret() []byte {
 	return key
 }
 
-const sharedDomain = 1000
-
 func newWorld(f failer, conf []srvConf, idents []*keys.Identity) *world {
 	w := &world{f: f, idents: idents, known: map[peer.ID]ic.PubKey{}, pool: map[string][]poolEntry{}}
 	for _, id := range idents {
@@ -163,12 +172,24 @@ func newWorld(f failer, conf []srvConf, idents []*keys.Identity) *world {
 	for i := range conf {
 		id := keys.Get(conf[i].keyType, 10+conf[i].ident)
 		var key []byte
-		domain := i
-		switch conf[i].secret {
-		case secretOwn:
+		switch {
+		case conf[i].secret == secretUnset:
+		case conf[i].hmac != nil:
+			key = append([]byte(nil), conf[i].hmac...)
+		case conf[i].secret == secretOwn:
 			key = ownSecret(i)
-		case secretShared:
-			key, domain = sharedSecret(), sharedDomain
+		default:
+			key = sharedSecret()
+		}
+		// Secret domain: instances that were given the very same bytes are one server in the
+		// property's sense; every other instance (any differing byte, any other length, or a
+		// secret it drew itself) is a server of its own.
+		domain := i
+		for j := 0; j < i && key != nil; j++ {
+			if w.srv[j].hmacKey != nil && bytes.Equal(w.srv[j].hmacKey, key) {
+				domain = w.srv[j].domain
+				break
+			}
 		}
 		s := &server{idx: i, ident: id, pub: mustPubBytes(id.Pub), hmacKey: key, secret: conf[i].secret, domain: domain,
 			ttl: conf[i].ttl, tls: conf[i].tls, opaques: map[string]*opaqueRec{}, tokens: map[string]*tokenRec{}}
@@ -270,10 +291,19 @@ func (w *world) send(s *server, host string, sni string, authz *string, owner in
 		if authz != nil {
 			hdr = *authz
 		}
-		ok, how, detail := w.justify(s, host, hdr, res.peer, now)
+		ok, how, detail := w.justify(s, host, hdr, res.peer, now, false)
 		if !ok {
 			w.f.Fatalf("C19 server: Next called with peer %s (key type %s) without proof.\n server=%d host=%q time=%s\n Authorization=%q\n %s",
 				res.peer, w.typeOf(res.peer), s.idx, host, now.UTC().Format(time.RFC3339Nano), hdr, detail)
+		}
+		// Values whose quoting was altered are not carried by the request (syntax_test.go): the
+		// proof must be complete without them.
+		if carried, altered := carriedText(hdr); altered {
+			if ok2, _, detail2 := w.justify(s, host, carried, res.peer, now, true); !ok2 {
+				w.f.Fatalf("C19 server: Next called with peer %s (key type %s) on the strength of an ALTERED parameter value: the proof is only there if bytes that follow a value's closing quote, unbalanced or doubled quotes are ignored.\n server=%d host=%q time=%s\n Authorization=%q\n what the header carries in intact parameters: %q\n %s",
+					res.peer, w.typeOf(res.peer), s.idx, host, now.UTC().Format(time.RFC3339Nano), hdr, carried, detail2)
+			}
+			w.alteredAccepted++
 		}
 		res.how = how
 		w.accepted++
@@ -333,12 +363,13 @@ func (w *world) recordChallenge(s *server, host string, www []param, now time.Ti
 	if !ok {
 		return
 	}
+	_, hasSig := getParam(www, "sig")
 	if _, dup := s.opaques[string(d)]; !dup {
-		s.opaques[string(d)] = &opaqueRec{challenge: cc, host: host, minted: now, srv: s.idx}
+		s.opaques[string(d)] = &opaqueRec{challenge: cc, host: host, minted: now, srv: s.idx, bound: hasSig}
 	}
 	spk, _ := getParam(www, "public-key")
 	bound := -1
-	if _, hasSig := getParam(www, "sig"); hasSig {
+	if hasSig {
 		bound = owner
 	}
 	w.challenges = append(w.challenges, challengeEntry{srv: s.idx, host: host, cc: cc, opaque: o, spk: spk, minted: now, owner: bound})
@@ -387,7 +418,11 @@ func (w *world) pubOf(p peer.ID, cands [][]byte) ic.PubKey {
 // HmacKey (same secret domain). State of any other instance - in particular of another instance
 // that was left to draw its own secret - and state that no instance minted at all justifies
 // nothing.
-func (w *world) justify(s *server, host, hdr string, p peer.ID, now time.Time) (bool, string, string) {
+//
+// needKey (used for the second pass over the intact parameters only, see send): when the
+// challenge was not minted in answer to a client-initiated request, the server has no way to
+// know the peer's public key but from the request, so the key has to be carried as well.
+func (w *world) justify(s *server, host, hdr string, p peer.ID, now time.Time, needKey bool) (bool, string, string) {
 	cands := decodedCandidates(hdr)
 	var notes []string
 	for _, d := range cands {
@@ -398,7 +433,7 @@ func (w *world) justify(s *server, host, hdr string, p peer.ID, now time.Time) (
 			}
 			switch {
 			case o.domain != s.domain:
-				notes = append(notes, fmt.Sprintf("carries a token issued by ANOTHER server instance (%d, secret %s) that does not share this instance's secret (%s)", o.idx, secretNames[o.secret], secretNames[s.secret]))
+				notes = append(notes, fmt.Sprintf("carries a token issued by ANOTHER server instance (%d, secret %s) that does not share this instance's secret (%s)%s", o.idx, secretNames[o.secret], secretNames[s.secret], keyNote(o, s)))
 			case tr.peer != p:
 				notes = append(notes, fmt.Sprintf("carries a token issued to %s, not to the reported peer", tr.peer))
 			case now.After(tr.issued.Add(s.ttl)):
@@ -420,7 +455,7 @@ func (w *world) justify(s *server, host, hdr string, p peer.ID, now time.Time) (
 				continue
 			}
 			if o.domain != s.domain {
-				notes = append(notes, fmt.Sprintf("carries an opaque minted by ANOTHER server instance (%d, secret %s) that does not share this instance's secret (%s)", o.idx, secretNames[o.secret], secretNames[s.secret]))
+				notes = append(notes, fmt.Sprintf("carries an opaque minted by ANOTHER server instance (%d, secret %s) that does not share this instance's secret (%s)%s", o.idx, secretNames[o.secret], secretNames[s.secret], keyNote(o, s)))
 				continue
 			}
 			if or == nil || o == s {
@@ -435,6 +470,10 @@ func (w *world) justify(s *server, host, hdr string, p peer.ID, now time.Time) (
 			continue
 		}
 		if pub == nil {
+			continue
+		}
+		if needKey && !or.bound && !carriesKeyOf(p, cands) {
+			notes = append(notes, "carries a live own challenge opaque of a server-initiated handshake, but the reported peer's public key is in no intact parameter")
 			continue
 		}
 		data := clientSigData(or.challenge, s.pub, host)
@@ -452,6 +491,32 @@ func (w *world) justify(s *server, host, hdr string, p peer.ID, now time.Time) (
 		notes = append(notes, "the header carries neither a token nor a challenge opaque minted by this instance (or by an instance given the same secret)")
 	}
 	return false, "", "oracle: " + strings.Join(notes, "; ")
+}
+
+// carriesKeyOf: some value is a marshalled public key whose peer ID is p.
+func carriesKeyOf(p peer.ID, cands [][]byte) bool {
+	for _, d := range cands {
+		if len(d) < 30 || len(d) > 1200 {
+			continue
+		}
+		k, err := ic.UnmarshalPublicKey(d)
+		if err != nil {
+			continue
+		}
+		if id, err := peer.IDFromPublicKey(k); err == nil && id == p {
+			return true
+		}
+	}
+	return false
+}
+
+// keyNote describes the two application-provided secrets of a cross-instance acceptance.
+func keyNote(minter, target *server) string {
+	if minter.hmacKey == nil || target.hmacKey == nil {
+		return ""
+	}
+	return fmt.Sprintf(" [HmacKey of the minter: %d bytes %x; of this instance: %d bytes %x; %s]",
+		len(minter.hmacKey), minter.hmacKey, len(target.hmacKey), target.hmacKey, keyPairClass(minter.hmacKey, target.hmacKey))
 }
 
 // ---------------------------------------------------------------------------
